@@ -61,8 +61,12 @@ def model_one(start, stop, fmt):
 
 
 def model_all(start, stop, fmt):
-    if start >= 2 ** 29 or stop >= 2 ** 29 or start < 0 or stop < 0:
+    if start >= 2 ** 29 or start < 0 or stop < 0:
         return {1}
+    if stop >= 2 ** 29:
+        # a range that starts inside the scheme and reaches beyond it overlaps every bin from its start to the top of the
+        # scheme (among them bin 1, where everything beyond lives)
+        stop = 2 ** 29 - 1
     a = start - (1 if fmt == "gff" else 0)
     out = {1}
     for shift, off in LEVELS:
@@ -136,14 +140,15 @@ def rk_bins(ctx):
     ivs = [(s, e, tables[s][e][0]) for s in tables for e in tables[s] if s < e < lim and tables[s][e][0] is not None]
     for qs in tables:
         for qe, (_one, qset) in tables[qs].items():
-            if not (qs < qe < lim) or qset is None:
+            if not (qs < qe) or qs >= lim or qset is None:
                 continue
             for s, e, one in ivs:
                 if s < qe and qs < e:
                     n += 1
                     if one not in qset and first is None:
                         kind = "contained in" if (qs <= s and e <= qe) else "overlapping"
-                        first = (f"{kind} interval hidden", f"interval [{s},{e}) (bin {one}) is {kind} query [{qs},{qe}) but the query's bin set "
+                        where = "" if qe < lim else " (query reaching beyond 2^29)"
+                        first = (f"{kind} interval hidden{where}", f"interval [{s},{e}) (bin {one}) is {kind} query [{qs},{qe}) but the query's bin set "
                                  f"{sorted(qset)[:12]} does not contain its bin")
     r.count(n)
     if first:
